@@ -1770,6 +1770,43 @@ func c06GenReaderInput(rnd *Rand, valid bool) c06Input {
 	return in
 }
 
+// c06GenWriterInput: the bytes sam.Writer produces for a header and expressible records (flag format
+// decimal or hexadecimal), to be read back by sam.Reader.
+func c06GenWriterInput(rnd *Rand) (c06Input, bool) {
+	hd := c06GenHeader(rnd)
+	in := c06Input{Kind: "reader", Header: hd, Valid: true, FlagFmt: rnd.intn(2)}
+	h, refs, err := c06MakeHeader(hd)
+	if err != nil {
+		return in, false
+	}
+	var buf bytes.Buffer
+	ok := true
+	o := guard(func() {
+		w, err := sam.NewWriter(&buf, h, in.FlagFmt)
+		if err != nil {
+			ok = false
+			return
+		}
+		k := rnd.pick([]int{1, 1, 2, 3, 6})
+		for i := 0; i < k; {
+			rr := c06GenRecord(rnd, hd, false)
+			if !c06Expressible(hd, rr) {
+				continue
+			}
+			r := c06Build(refs, rr)
+			if err := w.Write(r); err != nil {
+				ok = false
+				return
+			}
+			l, _, _ := c06Marshal(r, 0)
+			in.Lines = append(in.Lines, hexs(l))
+			i++
+		}
+	})
+	in.Text = hexs(buf.Bytes())
+	return in, ok && !o.panicked
+}
+
 func c06PickLine(rnd *Rand, line []byte) []byte {
 	switch rnd.intn(4) {
 	case 0:
@@ -1950,6 +1987,16 @@ func checkC06(c *ctx) {
 		if i == 1 {
 			r.sample(in)
 		}
+	}
+	for i := 0; i < nReader/4; i++ {
+		in, ok := c06GenWriterInput(rnd)
+		if !ok {
+			r.hist("writer.failed")
+			continue
+		}
+		x.readerCase(in)
+		r.eval("writer:"+in.Text, true)
+		r.hist(fmt.Sprintf("writer.flagfmt%d", in.FlagFmt))
 	}
 	for i := 0; i < nBam; i++ {
 		hd = c06GenHeader(rnd)
